@@ -73,10 +73,10 @@ def files(v):
                             'packageScript: |\n    vlog "dl package"\n    { echo dl-pkg; reveal "$1"; } > result.txt\n') % (
                                 v['urlsrc'], hashlib.sha256(data.encode()).hexdigest())
     f['recipes/lib2.yaml'] = ('inherit: [base]\ndepends: [dl]\ncheckoutDeterministic: True\n'
-                              'checkoutScript: |\n    vlog "lib2 checkout"\n    echo lib2-src > s.txt\n'
+                              'checkoutScript: |\n    vlog "lib2 checkout"\n    echo lib2-src%s > s.txt\n'
                               'buildVars: [ENVV]\n'
                               'buildScript: |\n    vlog "lib2 build"\n    { echo "lib2-build ENVV=${ENVV:-} nonce=${VERIF_NONCE:-}"; reveal "$@"; } > result.txt\n'
-                              'packageScript: |\n    vlog "lib2 package"\n    { echo lib2-pkg; reveal "$1"; } > result.txt\n')
+                              'packageScript: |\n    vlog "lib2 package"\n    { echo lib2-pkg; reveal "$1"; } > result.txt\n') % ('-v1' if v['coscript'] else '')
     f['recipes/gen.yaml'] = ('inherit: [base]\n'
                              'buildScript: |\n    vlog "gen build"\n    mkdir -p bin bin2\n'
                              '    printf \'#!/bin/sh\\necho gen-from-bin\\n\' > bin/gen\n    printf \'#!/bin/sh\\necho gen-from-bin2\\n\' > bin2/gen\n    chmod +x bin/gen bin2/gen\n'
